@@ -311,7 +311,7 @@ def step (s : S) (line : String) : S × String :=
   | "flushleft" :: _ =>
     match s.a with
     | some m => if !m.isDigital then (s, "bad-op") else
-      let r := flushLeftInserts m; ({ s with a := some r.msa }, resLine r)
+      let r := flushLeftInsertsIP m; ({ s with a := some r.msa }, resLine r)
     | none => (s, "bad-op")
   | "markfrag" :: _ =>
     match s.a, arg? ws "t" with
